@@ -224,7 +224,7 @@ func (ex *Exec) loopModSet(fr *Frame, li *loopInfo) *modSet {
 		case *ssa.IndexAddr:
 			switch xt := a.X.Type().Underlying().(type) {
 			case *types.Slice:
-				ms.heap[elemKey(xt.Elem())] = true
+				addElemKeys(ms, xt.Elem())
 			case *types.Pointer:
 				if al, ok := a.X.(*ssa.Alloc); ok {
 					ms.cells[al] = true
@@ -281,7 +281,7 @@ func (ex *Exec) loopModSet(fr *Frame, li *loopInfo) *modSet {
 				case *ssa.MakeSlice, *ssa.MakeMap, *ssa.MakeClosure, *ssa.MakeChan:
 					ms.alloc = true
 					if mk, ok := x.(*ssa.MakeSlice); ok {
-						ms.heap[elemKey(mk.Type().Underlying().(*types.Slice).Elem())] = true
+						addElemKeys(ms, mk.Type().Underlying().(*types.Slice).Elem())
 					}
 				case *ssa.Go, *ssa.Send, *ssa.Select:
 					ms.all = true
@@ -313,11 +313,11 @@ func (ex *Exec) scanCallMods(ms *modSet, call ssa.CallInstruction, depth int, se
 		case "append":
 			ms.alloc = true
 			if st, ok := c.Args[0].Type().Underlying().(*types.Slice); ok {
-				ms.heap[elemKey(st.Elem())] = true
+				addElemKeys(ms, st.Elem())
 			}
 		case "copy":
 			if st, ok := c.Args[0].Type().Underlying().(*types.Slice); ok {
-				ms.heap[elemKey(st.Elem())] = true
+				addElemKeys(ms, st.Elem())
 			}
 		case "delete":
 			mt := c.Args[0].Type().Underlying().(*types.Map)
@@ -915,6 +915,8 @@ func (ex *Exec) fieldAddr(fr *Frame, p Val, x *ssa.FieldAddr) Val {
 		return HeapPtr{Base: v.Base, Root: v.Root, Path: append(append([]int{}, v.Path...), x.Field)}
 	case GlobalPtr:
 		return GlobalPtr{G: v.G, Path: append(append([]int{}, v.Path...), x.Field)}
+	case ElemPtr:
+		return ElemPtr{Arr: v.Arr, Idx: v.Idx, Elem: v.Elem, Path: append(append([]int{}, v.Path...), x.Field)}
 	case SV:
 		root := x.X.Type().Underlying().(*types.Pointer).Elem()
 		ex.nilCheck(fr, v.T, x.Pos(), "field")
@@ -1519,10 +1521,12 @@ func (ex *Exec) makeSlice(fr *Frame, st *State, x *ssa.MakeSlice) Val {
 	r := ex.newRef(st, "arr")
 	ex.sc.Assert(app(SBool, ">", r, IntLit(0)))
 	elem := x.Type().Underlying().(*types.Slice).Elem()
-	if s, ok := scalarSort(elem); ok {
-		key := elemKey(elem)
-		E := ex.heapRead(st, key, ArraySort(SInt, ArraySort(SInt, s)))
-		ex.heapSet(st, key, Store(E, r, constArray(s, zeroTerm(s))))
+	if ls, ok := elemLeaves(elem); ok {
+		for _, l := range ls {
+			key := elemLeafKey(elem, l)
+			E := ex.heapRead(st, key, ArraySort(SInt, ArraySort(SInt, l.sort)))
+			ex.heapSet(st, key, Store(E, r, constArray(l.sort, zeroTerm(l.sort))))
+		}
 	} else {
 		ex.unsup("make slice of non-scalar " + elem.String())
 	}
@@ -1586,4 +1590,15 @@ func (ex *Exec) materializeCellSlice(st *State, c *Cell, at *types.Array) Val {
 		ex.unsup("slice literal of non-scalar " + at.Elem().String())
 	}
 	return SV{ex.sc.Name("litslice", app(SSlice, "mk-slice", r, IntLit(0), IntLit(n), IntLit(n)))}
+}
+
+// addElemKeys marks the element arrays of a slice element type as modified.
+func addElemKeys(ms *modSet, elem types.Type) {
+	if ls, ok := elemLeaves(elem); ok {
+		for _, l := range ls {
+			ms.heap[elemLeafKey(elem, l)] = true
+		}
+		return
+	}
+	ms.heap[elemKey(elem)] = true
 }
